@@ -44,6 +44,7 @@ class RowSpace:
         self.name = name
         self.n = n
         self.label_fn = z3.Function(cur().fresh_name(f"{name}_label"), z3.IntSort(), L)
+        self.multi = False  # the labels are MultiIndex tuples (declared by the contract that builds the object)
 
     def inb(self, i):
         return z3.And(i >= 0, i < self.n.z)
@@ -626,7 +627,13 @@ class IndexVal:
     def pyvc_class(self):
         import pandas as pd
 
-        return pd.Index
+        return pd.MultiIndex if getattr(getattr(self.owner, "space", None), "multi", False) else pd.Index
+
+    def to_frame(self, index=True, name=None, allow_duplicates=False):
+        """MultiIndex.to_frame(): one column per level; only its row-wise tuples are modelled"""
+        if not getattr(getattr(self.owner, "space", None), "multi", False):
+            raise Unsupported("Index.to_frame of a flat index")
+        return _LevelsFrame(self.owner)
 
     def pyvc_getitem(self, I, k):
         """index[mask]: the labels of the selected rows (a selection of positions whose labels are what matters downstream)"""
@@ -651,6 +658,8 @@ class IndexVal:
             mem = values.member
         elif isinstance(values, LabelSeries):
             mem = values.member
+        elif isinstance(values, TextLabelSeries):
+            mem = lambda l: z3.BoolVal(False)  # noqa: E731  (a label tuple is never equal to a piece of text)
         else:
             raise Unsupported("index.isin of non-label-set")
         return SeriesVal(o.space, lambda i: SBool(_zb(mem(o.label(i)))), lambda i: z3.BoolVal(False), o._sel, kind="bool")
@@ -697,6 +706,85 @@ class LabelSel:
         self.owner, self.sel = owner, sel
 
 
+# the text a MultiIndex label (a tuple) is reported as: str(tuple).  One uninterpreted rendering for every producer and consumer.
+LabelText = z3.DeclareSort("LabelText")
+label_text = z3.Function("label_text", L, LabelText)
+
+
+class _LevelsFrame:
+    """MultiIndex.to_frame(): rows are the label tuples"""
+
+    __pyvc_symbolic__ = True
+
+    def __init__(self, owner):
+        self.owner = owner
+
+    def pyvc_class(self):
+        import pandas as pd
+
+        return pd.DataFrame
+
+    def apply(self, fn, axis=0, **kw):
+        if fn is tuple and axis in (1, "columns"):
+            return _TupleSeries(self.owner, rendered=False)
+        raise Unsupported("levels frame .apply(...) other than (tuple, axis=1)")
+
+
+class _TupleSeries:
+    """one label tuple per row (rendered=True: as text)"""
+
+    __pyvc_symbolic__ = True
+
+    def __init__(self, owner, rendered):
+        self.owner, self.rendered = owner, rendered
+
+    def pyvc_class(self):
+        import pandas as pd
+
+        return pd.Series
+
+    def astype(self, t):
+        if t is str or t == "str":
+            return _TupleSeries(self.owner, rendered=True)
+        raise Unsupported(f"tuple series .astype({t!r})")
+
+    def isin(self, values):
+        o = self.owner
+        if self.rendered and isinstance(values, TextLabelSeries):
+            return SeriesVal(o.space, lambda i: SBool(_zb(values.member(label_text(o.label(i))))), lambda i: z3.BoolVal(False), o._sel, kind="bool")
+        if not self.rendered and isinstance(values, LabelSeries):
+            return SeriesVal(o.space, lambda i: SBool(_zb(values.member(o.label(i)))), lambda i: z3.BoolVal(False), o._sel, kind="bool")
+        if self.rendered != isinstance(values, TextLabelSeries):
+            # text against tuples: nothing is equal to anything
+            return SeriesVal(o.space, lambda i: SBool(z3.BoolVal(False)), lambda i: z3.BoolVal(False), o._sel, kind="bool")
+        raise Unsupported("tuple series .isin of an unmodelled collection")
+
+
+class TextLabelSeries:
+    """a column of RENDERED MultiIndex labels (failure_cases['index'] of an object with a MultiIndex): membership predicate on text.
+    `labels_are_literals`: every level value prints as a Python literal (ints, strings, ...) - then and only then does
+    eval(text) give the tuple back; a Timestamp / NaN / Decimal ... level prints as a name or call (`Timestamp('2020-01-01 00:00:00')`,
+    `nan`) that eval has no binding for."""
+
+    __pyvc_symbolic__ = True
+
+    def __init__(self, member, labels_are_literals):
+        self.member, self.labels_are_literals = member, labels_are_literals
+
+    def pyvc_class(self):
+        import pandas as pd
+
+        return pd.Series
+
+    def apply(self, fn, **kw):
+        if fn is eval:
+            if not self.labels_are_literals:
+                return cur().ghost["interp"].raise_py(NameError, "name 'Timestamp' is not defined")
+            # eval(str(t)) == t for tuples of literals: the tuples whose text is in the column
+            return LabelSeries(lambda l: self.member(label_text(l)))
+        raise Unsupported("rendered labels .apply(...) other than eval")
+
+
 class LabelSeries:
     """a column of labels (e.g. failure_cases['index']) given as a membership predicate on labels"""
 
@@ -723,6 +811,13 @@ def _value_error(msg="The truth value of a Series is ambiguous"):
 
 def install(I):
     import pandas as pd
+
+    def _from_tuples(I_, cls, tuples, *a, **k):
+        if isinstance(tuples, LabelSeries):
+            return tuples  # the same labels, as an index
+        raise Unsupported("MultiIndex.from_tuples of an unmodelled collection")
+
+    I.models[id(pd.MultiIndex.from_tuples.__func__)] = _from_tuples
     from pandera.api.pandas import types as ptypes
     from pandera import validation_depth as VD
     from pandera.config import ValidationScope
